@@ -1869,3 +1869,179 @@ def _mapmeta_rule(ctx):
 
 
 rule("C19", "D19.9", "T-WITNESS", floor=40)(_mapmeta_rule)
+
+
+# ---------------------------------------------------------------------------------------------------------------- generic messaging
+def _generic_message_rule(ctx):
+    """generic_message folded on witness requests (the packet classes, the path encoder, the route parser, the Forward Open guard and
+    the transport are markers): a connected request goes through the Forward Open guard and carries the driver's sequence
+    generator; an unconnected one carries the route (True: the connection's own path; a string: parsed; a segment list: encoded;
+    bytes: as given; False / empty: none - every encoded route with word count and reserved byte) and the Unconnected Send flag;
+    service, class, instance, attribute, data and data type reach the packet unchanged; the Tag carries the caller's name, the
+    reply's value (or the reply itself when asked), the data type and the reply's error."""
+    cd = _cd(ctx)
+    fn = cd.methods["generic_message"]
+    params = [a.arg for a in fn.args.args]
+    defaults = dict(zip(params[len(params) - len(fn.args.defaults):], [ctx.folder.eval(d, cd.module) for d in fn.args.defaults]))
+
+    def run(label, args, want_cls, want_kwargs, reply, want_tag, guard=None):
+        built, guarded = {}, []
+
+        def hook(call, env, it):
+            n = call_name(call) or ""
+            f = call.func
+            path = attr_path(f) or ""
+            if path == "PADDED_EPATH.encode":
+                kw = {k.arg: it.ev(k.value, env) for k in call.keywords}
+                return ("EPATH", it.ev(call.args[0], env), kw.get("length", False), kw.get("pad_length", False))
+            if n == "parse_cip_route" and isinstance(f, ast.Name):
+                return ("parsed", it.ev(call.args[0], env))
+            if n == "with_forward_open":
+                return Obj(kind="guard")
+            if isinstance(f, ast.Call) and (call_name(f) or "") == "with_forward_open":
+                guarded.append(it.ev(call.args[0], env) is env.get(params[0]))
+                return None
+            if n in ("GenericConnectedRequestPacket", "GenericUnconnectedRequestPacket") and isinstance(f, ast.Name):
+                kw = {}
+                for k in call.keywords:
+                    if k.arg is None:
+                        kw.update(it.ev(k.value, env))
+                    else:
+                        kw[k.arg] = it.ev(k.value, env)
+                built["cls"], built["kwargs"], built["args"] = n, kw, [it.ev(a, env) for a in call.args]
+                return Obj(kind="request", cls=n)
+            held = env.get(f.id) if isinstance(f, ast.Name) else None
+            held = getattr(getattr(held, "ci", None), "name", held)
+            if isinstance(f, ast.Name) and held in ("GenericConnectedRequestPacket", "GenericUnconnectedRequestPacket"):
+                env = dict(env)
+                env[f.id] = held
+                kw = {}
+                for k in call.keywords:
+                    if k.arg is None:
+                        kw.update(it.ev(k.value, env))
+                    else:
+                        kw[k.arg] = it.ev(k.value, env)
+                built["cls"], built["kwargs"], built["args"] = env[f.id], kw, [it.ev(a, env) for a in call.args]
+                return Obj(kind="request", cls=env[f.id])
+            if path == "self.send":
+                built["sent"] = it.ev(call.args[0], env)
+                return reply
+            return UNKNOWN
+
+        env = {params[0]: Obj(_ci=cd, _sequence="SEQ", _cfg={"cip_path": ["<own path>"]})}
+        for p_ in params[1:]:
+            if p_ in args:
+                env[p_] = args[p_]
+            elif p_ in defaults:
+                env[p_] = defaults[p_]
+        env[fn.args.kwarg.arg if fn.args.kwarg else "kwargs"] = {k: v for k, v in args.items() if k not in params}
+        kind, res = run_function(ctx, cd.module, fn, env, call_hook=chain(tag_hook, hook), deep=False)
+        key = ckey(cd.key + ".generic_message", f"witness:{label}")
+        if kind == "unknown":
+            ctx.undecided(key, fn, f"generic_message not foldable on {label}: {res}")
+            return
+        diffs = []
+        cls_name = built.get("cls")
+        if isinstance(cls_name, str) and cls_name != want_cls or cls_name is None:
+            diffs.append(f"builds {cls_name!r} (expected {want_cls})")
+        got_kw = built.get("kwargs", {})
+        if got_kw != want_kwargs:
+            diffs.append(f"packet arguments {got_kw!r} (expected {want_kwargs!r})")
+        if built.get("args"):
+            diffs.append("packet built with positional arguments")
+        if guard is not None and guarded != ([True] if guard else []):
+            diffs.append(f"Forward Open guard calls {guarded!r} (expected {'one on self' if guard else 'none'})")
+        if kind != "return" or tag_tuple(res) != want_tag:
+            diffs.append(f"returns {kind} {tag_tuple(res)!r} (expected {want_tag!r})")
+        ctx.check(not diffs, key, fn, f"{label}: {want_cls} with the documented arguments", f"generic_message ({label}): {diffs[:2]}", witness=label)
+
+    ok = _resp(True, value=b"\x34\x12", error=None)
+    bad = _resp(False, value=None, error="Service not supported")
+    base = {"service": 0x0E, "class_code": b"\x01", "instance": 1, "attribute": b"\x07", "request_data": b"\xde\xad", "data_type": "DT", "name": "my-msg"}
+    core = {k: base[k] for k in ("service", "class_code", "instance", "attribute", "request_data", "data_type")}
+    run("connected", dict(base), "GenericConnectedRequestPacket", dict(core, sequence="SEQ"), ok, ("my-msg", b"\x34\x12", "DT", None), guard=True)
+    run("connected, failed reply", dict(base), "GenericConnectedRequestPacket", dict(core, sequence="SEQ"), bad, ("my-msg", None, "DT", "Service not supported"), guard=True)
+    run("unconnected, own route", dict(base, connected=False), "GenericUnconnectedRequestPacket", dict(core, route_path=("EPATH", ["<own path>"], True, True), unconnected_send=False), ok, ("my-msg", b"\x34\x12", "DT", None), guard=False)
+    run("unconnected, route string", dict(base, connected=False, route_path="bp/1", unconnected_send=True), "GenericUnconnectedRequestPacket", dict(core, route_path=("EPATH", ("parsed", "bp/1"), True, True), unconnected_send=True), ok, ("my-msg", b"\x34\x12", "DT", None), guard=False)
+    run("unconnected, encoded route", dict(base, connected=False, route_path=b"\x01\x00\x01\x00"), "GenericUnconnectedRequestPacket", dict(core, route_path=b"\x01\x00\x01\x00", unconnected_send=False), ok, ("my-msg", b"\x34\x12", "DT", None), guard=False)
+    run("unconnected, segment list", dict(base, connected=False, route_path=["<seg>"]), "GenericUnconnectedRequestPacket", dict(core, route_path=("EPATH", ["<seg>"], True, True), unconnected_send=False), ok, ("my-msg", b"\x34\x12", "DT", None), guard=False)
+    run("unconnected, no route", dict(base, connected=False, route_path=False), "GenericUnconnectedRequestPacket", dict(core, unconnected_send=False), ok, ("my-msg", b"\x34\x12", "DT", None), guard=False)
+    run("unconnected, empty route list", dict(base, connected=False, route_path=[]), "GenericUnconnectedRequestPacket", dict(core, unconnected_send=False), ok, ("my-msg", b"\x34\x12", "DT", None), guard=False)
+    run("reply packet asked for", dict(base, return_response_packet=True), "GenericConnectedRequestPacket", dict(core, sequence="SEQ"), ok, ("my-msg", ok, "DT", None), guard=True)
+    run("empty reply value stays empty", dict(base), "GenericConnectedRequestPacket", dict(core, sequence="SEQ"), _resp(True, value=b"", error=None), ("my-msg", b"", "DT", None), guard=True)
+    run("zero reply value stays zero", dict(base), "GenericConnectedRequestPacket", dict(core, sequence="SEQ"), _resp(True, value=0, error=None), ("my-msg", 0, "DT", None), guard=True)
+
+    # the Unconnected Send wrapper
+    wu = ctx.model.func("pycomm3.packets.util:wrap_unconnected_send")
+    prio, ticks = ctx.folder.module_value(wu.module.name, "PRIORITY"), ctx.folder.module_value(wu.module.name, "TIMEOUT_TICKS")
+    svc = ctx.folder.eval(ast.parse("ConnectionManagerServices.unconnected_send", mode="eval").body, wu.module)
+    cmgr = ctx.folder.eval(ast.parse("ClassCode.connection_manager", mode="eval").body, wu.module)
+
+    def rp_hook(call, env, it):
+        if (call_name(call) or "") == "request_path" and isinstance(call.func, ast.Name):
+            a = [it.ev(x, env) for x in call.args]
+            kw = {k.arg: it.ev(k.value, env) for k in call.keywords}
+            cls_ = kw.get("class_code", a[0] if a else None)
+            inst = kw.get("instance", a[1] if len(a) > 1 else None)
+            return b"<rp:" + repr((cls_, inst, kw.get("attribute", a[2] if len(a) > 2 else b""))).encode() + b">"
+        return UNKNOWN
+
+    if all(isinstance(x, bytes) for x in (prio, ticks, svc, cmgr)):
+        ctx.check((svc, prio[:1] if prio else None) == (b"\x52", prio[:1]) and svc == b"\x52", ckey(wu, "service"), wu.node, "Unconnected Send = 0x52", f"Unconnected Send service is {svc!r}")
+        wp = [a.arg for a in wu.node.args.args]
+        for label, msg, route in (("odd message", b"\x0e\x03\x20", b"\x01\x00\x01\x00"), ("even message", b"\x0e\x03\x20\x01", b"\x01\x00\x01\x02"), ("empty message", b"", b"\x01\x00\x01\x00")):
+            kind, res = run_function(ctx, wu.module, wu.node, {wp[0]: msg, wp[1]: route}, call_hook=rp_hook, deep=False)
+            rp_any = [b"<rp:" + repr((cmgr, i_, b"")).encode() + b">" for i_ in (b"\x01", 1)]
+            wants = [svc + r_ + prio + ticks + len(msg).to_bytes(2, "little") + msg + (b"\x00" if len(msg) % 2 else b"") + route for r_ in rp_any]
+            key = ckey(wu, f"witness:{label}")
+            if kind == "unknown":
+                ctx.undecided(key, wu.node, f"wrap_unconnected_send not foldable on {label}: {res}")
+            else:
+                ctx.check(kind == "return" and bytes(res) in wants, key, wu.node, f"{label}: 52 | connection manager instance 1 | priority | ticks | UINT length | message | pad iff odd | route",
+                          f"wrap_unconnected_send ({label}) gives {kind} {res!r}; expected {wants[0]!r}")
+
+
+def _module_info_rule(ctx):
+    """get_module_info folded on witness replies: Get Attributes All on the identity object instance 1, unconnected, wrapped in an
+    Unconnected Send, routed over the connection's path with its last hop replaced by the backplane slot asked for (word count
+    and reserved byte); a valid reply is decoded as a module identity, a failed one raises ResponseError."""
+    cd = _cd(ctx)
+    fn = cd.methods["get_module_info"]
+    ev = lambda s_: ctx.folder.eval(ast.parse(s_, mode="eval").body, cd.module)  # noqa: E731
+
+    def hook(call, env, it):
+        n = call_name(call) or ""
+        path = attr_path(call.func) or ""
+        if path == "PADDED_EPATH.encode":
+            kw = {k.arg: it.ev(k.value, env) for k in call.keywords}
+            return ("EPATH", tuple(it.ev(call.args[0], env)), kw.get("length", False), kw.get("pad_length", False))
+        if n == "PortSegment" and isinstance(call.func, ast.Name):
+            return ("P",) + tuple(it.ev(a, env) for a in call.args)
+        if path == "ModuleIdentityObject.decode":
+            return ("identity", it.ev(call.args[0], env))
+        return UNKNOWN
+
+    for label, valid in (("valid reply", True), ("failed reply", False)):
+        seen = {}
+        gm = self_call("generic_message", lambda a, k, seen=seen, valid=valid: seen.update(k) or _resp(valid, value=b"<raw identity>" if valid else None, error=None if valid else "Path destination unknown"))
+        me = Obj(_ci=cd, _cfg={"cip_path": ["<hop1>", "<hop2>", "<last hop>"]})
+        kind, res = run_function(ctx, cd.module, fn, {"self": me, fn.args.args[1].arg: 3}, call_hook=chain(hook, gm), deep=False)
+        key = ckey(cd.key + ".get_module_info", f"witness:{label}")
+        if kind == "unknown":
+            ctx.undecided(key, fn, f"get_module_info not foldable on a {label}: {res}")
+            continue
+        if not valid:
+            ctx.check((kind, res) == ("raise", "ResponseError"), key, fn, "failed reply: ResponseError", f"get_module_info with a failed reply: {kind} {res!r}")
+            continue
+        want_route = ("EPATH", ("<hop1>", "<hop2>", ("P", "bp", 3)), True, True)
+        req_ok = seen.get("service") == ev("Services.get_attributes_all") and seen.get("class_code") == ev("ClassCode.identity_object") and seen.get("instance") in (1, b"\x01") and seen.get("connected") is False \
+            and seen.get("unconnected_send") is True and seen.get("route_path") == want_route
+        kept = me._cfg["cip_path"] == ["<hop1>", "<hop2>", "<last hop>"]
+        ctx.check((kind, res) == ("return", ("identity", b"<raw identity>")) and req_ok and kept, key, fn, "valid reply: decoded identity of slot 3 over the connection's path with the last hop replaced; the driver's own path is left alone",
+                  (f"get_module_info(3): {kind} {res!r}; request {dict((k, v) for k, v in seen.items() if k != 'name')!r} (expected route {want_route!r})" if kept else
+                   f"get_module_info(3) changes the driver's own connection path to {me._cfg['cip_path']!r}: every later request routed over the connection path goes to the module"))
+
+
+rule("C14", "D14.10", "T-WITNESS", floor=12)(_generic_message_rule)
+rule("C14", "D14.11", "T-WITNESS", floor=2)(_module_info_rule)
+rule("C16", "D16.9", "T-WITNESS", floor=2)(_module_info_rule)
